@@ -299,7 +299,7 @@ CONSTANT_PROGRAMS = [
 def run(tier, seed, replay=None):
     v = common.Verdict("C03", tier, seed)
     rng = common.rng_for(seed, "C03", tier)
-    n_docs = 20 if tier == "quick" else 400
+    n_docs = 60 if tier == "quick" else 400
     docs = [make_doc(rng, 19) for _ in range(n_docs)]
     # one binding per document may be rejected -> the document is rejected: translate each object on its own as well
     jobs = []
